@@ -73,7 +73,8 @@ class LinearScaling(ScalingFunction):
         return scale / self.slope_hz + self.low_hz
 
     def hertz_to_scale(self, hertz: float) -> float:
-        return (hertz - self.low_hz) * self.slope_hz
+        # (a float offset: an unsigned or narrow NumPy integer frequency would wrap)
+        return (hertz - float(self.low_hz)) * self.slope_hz
 
 
 class OctaveScaling(ScalingFunction):
